@@ -1,5 +1,17 @@
 import G3D.Proofs.KTieKarea
 import G3D.Proofs.KTieKvecLen
+import G3D.Proofs.MeasTieBase
+import G3D.Proofs.MeasTieExamples
+import G3D.Proofs.MeasTieKernels
+import G3D.Proofs.MeasTiePolygon
+import G3D.Proofs.MeasTiePolyhedronArea
+import G3D.Proofs.MeasTiePolyhedronLength
+import G3D.Proofs.MeasTiePolyhedronVolume
+import G3D.Proofs.MeasTiePyramid
+import G3D.Proofs.MeasTiePyramidHeight
+import G3D.Proofs.MeasTieSegment
+import G3D.Proofs.MeasTieVolume
+import G3D.Proofs.MeasTieVolumeEq
 import G3D.Proofs.MethodsTiePolygonLength
 import G3D.Props.C06
 #print axioms G3D.Props.C06.polygon_area_is_shoelace
@@ -20,3 +32,50 @@ import G3D.Props.C06
 #print axioms G3D.KTie.Kvec.length_cast
 #print axioms G3D.Tie.m_ConvexPolygon_length_eq
 #print axioms G3D.Tie.segments_lenSq
+#print axioms G3D.MeasTie.Segment.m_Segment_length_real
+#print axioms G3D.MeasTie.Segment.m_Segment_length_tie
+#print axioms G3D.MeasTie.Polygon.m_get_triangle_area_karea
+#print axioms G3D.MeasTie.Polygon.m_get_triangle_area_tie
+#print axioms G3D.MeasTie.Polygon.m_ConvexPolygon_area_cyc
+#print axioms G3D.MeasTie.Polygon.m_ConvexPolygon_area_tie
+#print axioms G3D.MeasTie.Polygon.m_ConvexPolygon_area_of_mean
+#print axioms G3D.MeasTie.Polygon.m_ConvexPolygon_area_plane_irrelevant
+#print axioms G3D.MeasTie.Pyramid.m_Pyramid_height_real
+#print axioms G3D.MeasTie.Pyramid.m_Pyramid_height_tie
+#print axioms G3D.MeasTie.Pyramid.m_Pyramid_volume_unfold
+#print axioms G3D.MeasTie.Pyramid.m_Pyramid_volume_tie
+#print axioms G3D.MeasTie.Polyhedron.m_ConvexPolyhedron_length_sum
+#print axioms G3D.MeasTie.Polyhedron.m_ConvexPolyhedron_length_tie
+#print axioms G3D.MeasTie.Polyhedron.m_ConvexPolyhedron_length_model
+#print axioms G3D.MeasTie.Polyhedron.m_ConvexPolyhedron_area_sum
+#print axioms G3D.MeasTie.Polyhedron.m_ConvexPolyhedron_area_tie
+#print axioms G3D.MeasTie.Polyhedron.m_ConvexPolyhedron_volume_sum
+#print axioms G3D.MeasTie.Polyhedron.m_ConvexPolyhedron_volume_tie
+#print axioms G3D.MeasTie.Polyhedron.m_ConvexPolyhedron_volume_model
+#print axioms G3D.MeasTie.Volume.m_volume_other
+#print axioms G3D.MeasTie.Volume.m_volume_pyramid_real
+#print axioms G3D.MeasTie.Volume.m_volume_pyramid_tie
+#print axioms G3D.MeasTie.Volume.m_volume_polyhedron_real
+#print axioms G3D.MeasTie.Volume.m_volume_polyhedron_tie
+#print axioms G3D.MeasTie.Volume.m_volume_zero
+#print axioms G3D.MeasTie.VolumeEq.distance_eq_height
+#print axioms G3D.MeasTie.VolumeEq.volume_fn_eq_method_pyramid_real
+#print axioms G3D.MeasTie.VolumeEq.volume_fn_eq_method_pyramid
+#print axioms G3D.MeasTie.VolumeEq.volume_fn_eq_method_polyhedron_real
+#print axioms G3D.MeasTie.VolumeEq.volume_fn_eq_method_polyhedron
+#print axioms G3D.MeasTie.Kernels.pointDistance_kdist
+#print axioms G3D.MeasTie.Kernels.vLength_kvecr
+#print axioms G3D.MeasTie.Kernels.vNormalized_kvecr
+#print axioms G3D.MeasTie.Kernels.distPointPlane_kdist
+#print axioms G3D.MeasTie.Kernels.distPointPlane_model_sq
+#print axioms G3D.MeasTie.cyc_fold
+#print axioms G3D.MeasTie.closedPairs_eq_cycPairs
+#print axioms G3D.MeasTie.tri_half_cross
+#print axioms G3D.MeasTie.MeasOK.of_mean
+#print axioms G3D.MeasTie.distPointPlane_model
+#print axioms G3D.MeasTie.sum_map_perm
+#print axioms G3D.MeasTie.vNormalized_idem
+#print axioms G3D.MeasTie.Examples.m_ConvexPolygon_area_true
+#print axioms G3D.MeasTie.Examples.pyramids_measOK_of_mk?
+#print axioms G3D.MeasTie.Examples.volume_of_mk?
+#print axioms G3D.MeasTie.Examples.area_of_valid
